@@ -104,11 +104,11 @@ def mk_probes(tier, only=None):
                     ref = (lambda op, t1, t2, t3: lambda a, b: (lambda r: (conv(r[0], r[1], t3), r[2]))(binop(op, a, t1, b, t2)))(op, t1, t2, t3)
                     k = "%s/%s/%s/%s" % (OPNAME[op], t1.cid, t2.cid, t3.cid)
                     P.append(e2.ScalarProbe("ctx/init/" + k, fn(), t3, [t1, t2],
-                                            "%s x = a %s b; return x;" % (t3.name, op), ref))
+                                            "%s x = (a %s b); return x;" % (t3.name, op), ref))
                     P.append(e2.ScalarProbe("ctx/assign/" + k, fn(), t3, [t1, t2],
-                                            "%s x; x = a %s b; return x;" % (t3.name, op), ref))
+                                            "%s x; x = (a %s b); return x;" % (t3.name, op), ref))
                     P.append(e2.ScalarProbe("ctx/assignval/" + k, fn(), t3, [t1, t2],
-                                            "%s x; return (x = a %s b);" % (t3.name, op), ref))
+                                            "%s x; return (x = (a %s b));" % (t3.name, op), ref))
                     P.append(ArgProbe("ctx/arg/" + k, fn(), t1, t2, t3, op))
                 # condition contexts: if / while / ! / && operand / ?: condition
                 refc = (lambda op, t1, t2: lambda a, b: (lambda r: (z3.If(r[0] != 0, z3.BitVecVal(1, 32), z3.BitVecVal(0, 32)), r[2]))(binop(op, a, t1, b, t2)))(op, t1, t2)
@@ -243,7 +243,7 @@ class ArgProbe(e2.Probe):
     def __init__(self, key, fn, t1, t2, t3, op):
         self.key, self.fn, self.family = key, fn, "ctx"
         self.t1, self.t2, self.t3, self.op = t1, t2, t3, op
-        self.csrc = "long sink_%s(%s);\nlong %s(%s a, %s b) { return sink_%s(a %s b); }\n" % (fn, t3.name, fn, t1.name, t2.name, fn, op)
+        self.csrc = "long sink_%s(%s);\nlong %s(%s a, %s b) { return sink_%s((a %s b)); }\n" % (fn, t3.name, fn, t1.name, t2.name, fn, op)
 
     def goals(self, M, finals):
         t1, t2, t3 = self.t1, self.t2, self.t3
